@@ -8,6 +8,8 @@ package symterp
 // external or because they use "unsafe" or "reflect" operations.
 
 import (
+	"fmt"
+	"go/types"
 	"bytes"
 	"math"
 	"os"
@@ -148,6 +150,12 @@ func ext۰math۰Float64frombits(fr *frame, args []value) value {
 }
 
 func ext۰math۰Float64bits(fr *frame, args []value) value {
+	if f, ok := args[0].(symF); ok {
+		// a fresh bit pattern b with to_fp(b) = f (for NaN: any NaN pattern, as on real hardware)
+		b := cur.fresh(bvSort(64), "f64bits")
+		cur.assume(fmt.Sprintf("(= %s ((_ to_fp 11 53) %s))", f.t, b))
+		return newI(64, false, types.Uint64, b)
+	}
 	return math.Float64bits(args[0].(float64))
 }
 
@@ -168,6 +176,11 @@ func ext۰math۰Exp(fr *frame, args []value) value {
 }
 
 func ext۰math۰Float32bits(fr *frame, args []value) value {
+	if f, ok := args[0].(symF); ok {
+		b := cur.fresh(bvSort(32), "f32bits")
+		cur.assume(fmt.Sprintf("(= %s ((_ to_fp 8 24) %s))", f.t, b))
+		return newI(32, false, types.Uint32, b)
+	}
 	return math.Float32bits(args[0].(float32))
 }
 
